@@ -93,9 +93,20 @@ pub enum Principal {
     AllAddressesAliasCalledContract,
     /// every address argument is the named address, which does not authorise
     AllAddressesAliasNamedNobodySigns,
+    /// the named address authorised the same entry point with an argument list that differs from the studied call in
+    /// exactly the k-th argument (an amount one higher, a text / byte string one character longer, another third party,
+    /// the amount inside a token argument): an authorisation covers one call, not a family of calls
+    NamedOtherArg(u8),
 }
 
-const PRINCIPALS: [Principal; 10] = [
+const PRINCIPALS: [Principal; 17] = [
+    Principal::NamedOtherArg(0),
+    Principal::NamedOtherArg(1),
+    Principal::NamedOtherArg(2),
+    Principal::NamedOtherArg(3),
+    Principal::NamedOtherArg(4),
+    Principal::NamedOtherArg(5),
+    Principal::NamedOtherArg(6),
     Principal::Named,
     Principal::Counterparty,
     Principal::ContractOwner,
@@ -375,6 +386,65 @@ impl<'a> CanonicalId for interchain_token_service::InterchainTokenServiceClient<
     }
 }
 
+/// the same value, changed a little (None: nothing sensible to change)
+fn nudge(v: &soroban_sdk::xdr::ScVal, named: &soroban_sdk::xdr::ScAddress, other: &soroban_sdk::xdr::ScAddress) -> Option<soroban_sdk::xdr::ScVal> {
+    use soroban_sdk::xdr::{Int128Parts, ScBytes, ScMap, ScMapEntry, ScString, ScVal, ScVec};
+    Some(match v {
+        ScVal::I128(p) => {
+            let x = ((p.hi as i128) << 64 | p.lo as i128) + 1;
+            ScVal::I128(Int128Parts { hi: (x >> 64) as i64, lo: x as u64 })
+        }
+        ScVal::U32(x) => ScVal::U32(x.wrapping_add(1)),
+        ScVal::U64(x) => ScVal::U64(x.wrapping_add(1)),
+        ScVal::String(x) => {
+            let mut b = x.0.to_vec();
+            b.push(b'x');
+            ScVal::String(ScString(b.try_into().ok()?))
+        }
+        ScVal::Bytes(x) => {
+            let mut b = x.0.to_vec();
+            if b.len() == 32 {
+                b[31] ^= 1;
+            } else {
+                b.push(1);
+            }
+            ScVal::Bytes(ScBytes(b.try_into().ok()?))
+        }
+        ScVal::Address(a) if a != named && a != other => ScVal::Address(other.clone()),
+        ScVal::Map(Some(m)) => {
+            // (a struct: change its last field that can be changed - the amount of a token argument)
+            let mut entries: Vec<ScMapEntry> = m.0.to_vec();
+            let k = (0..entries.len()).rev().find(|i| !matches!(entries[*i].val, ScVal::Address(_)) && nudge(&entries[*i].val, named, other).is_some())?;
+            entries[k].val = nudge(&entries[k].val, named, other)?;
+            ScVal::Map(Some(ScMap(entries.try_into().ok()?)))
+        }
+        ScVal::Vec(Some(x)) if !x.0.is_empty() => {
+            let mut items: Vec<ScVal> = x.0.to_vec();
+            items[0] = nudge(&items[0], named, other)?;
+            ScVal::Vec(Some(ScVec(items.try_into().ok()?)))
+        }
+        _ => return None,
+    })
+}
+
+/// the invocation with its k-th argument nudged (None: no such argument, or nothing to change about it)
+fn nudged_invocation(w: &W, inv: &(Address, &'static str, SVec<Val>), k: u8) -> Option<(Address, &'static str, SVec<Val>)> {
+    use soroban_sdk::xdr::{ScAddress, ScVal};
+    use soroban_sdk::TryFromVal;
+    let env = &w.s.env;
+    let k = k as u32;
+    if k >= inv.2.len() {
+        return None;
+    }
+    let named = ScAddress::try_from(&w.named).ok()?;
+    let other = ScAddress::try_from(&w.s.pool[EXTRA_B]).ok()?;
+    let old = ScVal::try_from_val(env, &inv.2.get(k).unwrap()).ok()?;
+    let new = nudge(&old, &named, &other)?;
+    let mut args = inv.2.clone();
+    args.set(k, Val::try_from_val(env, &new).ok()?);
+    Some((inv.0.clone(), inv.1, args))
+}
+
 fn invoke_ok(w: &W, inv: &(Address, &'static str, SVec<Val>)) -> bool {
     let env = &w.s.env;
     matches!(env.try_invoke_contract::<Val, soroban_sdk::Error>(&inv.0, &Symbol::new(env, inv.1), inv.2.clone()), Ok(Ok(_)))
@@ -503,7 +573,7 @@ impl Property for C07 {
             let env = &w.s.env;
             let inv = invocation(&w, ep, -amount, false);
             let signer: Option<Address> = match case.principal {
-                Principal::Named | Principal::NamedOtherArgs => Some(w.named.clone()),
+                Principal::Named | Principal::NamedOtherArgs | Principal::NamedOtherArg(_) => Some(w.named.clone()),
                 Principal::Counterparty => Some(w.counterparty.clone()),
                 Principal::ContractOwner => Some(w.owner_of_called.clone()),
                 Principal::Stranger => Some(w.s.pool[STRANGER].clone()),
@@ -584,7 +654,7 @@ impl Property for C07 {
                 let env = &w.s.env;
                 let inv = invocation(&w, ep, amount, false);
                 let principal: Option<Address> = match case.principal {
-                    Principal::Named | Principal::NamedOtherArgs => Some(w.named.clone()),
+                    Principal::Named | Principal::NamedOtherArgs | Principal::NamedOtherArg(_) => Some(w.named.clone()),
                     Principal::Counterparty => Some(w.counterparty.clone()),
                     Principal::ContractOwner => Some(w.owner_of_called.clone()),
                     Principal::Stranger => Some(w.s.pool[STRANGER].clone()),
@@ -603,11 +673,32 @@ impl Property for C07 {
                 Ok(())
             }
             _ => {
-                let other_args = case.principal == Principal::NamedOtherArgs;
+                let one_arg: Option<u8> = match case.principal {
+                    Principal::NamedOtherArg(k) => Some(k),
+                    _ => None,
+                };
+                let other_args = case.principal == Principal::NamedOtherArgs || one_arg.is_some();
                 // ---- twin world: record
                 let tw = build(case, false);
-                let tinv = invocation(&tw, ep, amount, other_args);
+                let tinv = match one_arg {
+                    None => invocation(&tw, ep, amount, other_args),
+                    Some(k) => match nudged_invocation(&tw, &invocation(&tw, ep, amount, false), k) {
+                        Some(i) => i,
+                        None => {
+                            cx.count("no_such_argument_to_change");
+                            return Ok(());
+                        }
+                    },
+                };
                 let (ok, recs) = auth::record(&tw.s.env, || invoke_ok(&tw, &tinv));
+                if one_arg.is_some() && !ok {
+                    // the neighbouring call is not a possible one (unknown chain, unknown token, no allowance from that holder ...)
+                    cx.count("neighbouring_call_not_possible");
+                    return Ok(());
+                }
+                if one_arg.is_some() {
+                    cx.label(&format!("named_address_signed_a_call_differing_in_one_argument:{:?}", ep));
+                }
                 ensure_p!(ok, "{:?} failed although every authorisation was mocked and its preconditions hold", ep);
                 let named_sc = soroban_sdk::xdr::ScAddress::try_from(&tw.named).unwrap();
                 ensure_p!(
@@ -621,7 +712,7 @@ impl Property for C07 {
                 let env = &w.s.env;
                 let inv = invocation(&w, ep, amount, false);
                 let principal: Option<Address> = match case.principal {
-                    Principal::Named | Principal::NamedOtherArgs => Some(w.named.clone()),
+                    Principal::Named | Principal::NamedOtherArgs | Principal::NamedOtherArg(_) => Some(w.named.clone()),
                     Principal::Counterparty => Some(w.counterparty.clone()),
                     Principal::ContractOwner => Some(w.owner_of_called.clone()),
                     Principal::Stranger => Some(w.s.pool[STRANGER].clone()),
